@@ -79,6 +79,11 @@ theorem trig_env (s s' : St) (a : Act) (ha : a.isEnv = true) (ht : s.triggered =
     split at h
     · simp at h; subst h; simpa [St.triggered] using ht
     · simp at h
+  case envDeadline sid =>
+    simp only [step] at h
+    split at h
+    · simp at h; subst h; simpa [St.triggered] using ht
+    · simp at h
   case envStart i =>
     simp only [step] at h
     split at h
@@ -706,6 +711,103 @@ theorem sdAcked_unchanged (s s' : St) (a : Act) (ha : a ≠ .rlHandle) (h : step
     obtain ⟨s1, hs1, rfl⟩ := h
     have := chArm_sdAcked _ _ _ _ _ hs1
     simpa using this)
+
+/-! ### the terminal read error is sticky -/
+
+theorem applyOp_gone_unreg (s : St) (op : Op) : (applyOp E s op).gone = s.gone ∧ (s.unreg = true → (applyOp E s op).unreg = true) := by
+  cases op <;> simp [applyOp, E, Choreo.expected]
+
+theorem execOp_gone_unreg (s s1 : St) (c : String) (op : Op) (h : execOp E s c op = some s1) :
+    s1.gone = s.gone ∧ (s.unreg = true → s1.unreg = true) := by
+  cases op <;> simp only [execOp, Option.some.injEq] at h <;> (try (subst h; exact applyOp_gone_unreg s _))
+  all_goals (split at h <;> simp at h; subst h; exact ⟨rfl, id⟩)
+
+theorem chArm_gone_unreg (s s1 : St) (err : Bool) (arm : Nat) (h : chArm E s err arm = some s1) :
+    s1.gone = s.gone ∧ s1.unreg = s.unreg := by
+  unfold chArm at h
+  (repeat' split at h) <;> simp at h <;> (try (obtain ⟨_, rfl⟩ := h)) <;> (try subst h) <;> exact ⟨rfl, rfl⟩
+
+/-- Once every stream has been unregistered with the close error (`unreg`), no step - in particular no read deadline that
+expires afterwards (`envDeadline`) - changes what a read on any stream returns: `unreg` stays, the set of streams that ended
+with EOF stays, the close error stays (`closeErr_stable`), and no terminal error is ever lost (`Inv.lost`). -/
+theorem terminal_sticky (s s' : St) (a : Act) (hi : Inv s) (hu : s.unreg = true) (h : step E s a = some s') :
+    s'.unreg = true ∧ s'.gone = s.gone ∧ s'.closeErr = s.closeErr ∧ s'.lost = [] := by
+  have hl : leaving s = true := by
+    have := hi.u4 hu
+    unfold leaving; unfold prog at this
+    cases hrl : s.rl <;> simp [hrl] at this ⊢
+  have hce := closeErr_stable s s' a hl h
+  have hlost := (inv_step s s' a hi h).lost
+  refine ⟨?_, ?_, hce, hlost⟩ <;>
+  · cases a
+    case rlHandle =>
+      simp only [step] at h
+      split at h
+      · rename_i p hp; simp [leaving, hp] at hl
+      · simp at h
+    case rlDefer =>
+      simp only [step] at h
+      split at h
+      · split at h
+        · simp at h; subst h; first | exact hu | rfl
+        · simp only [Option.map_eq_some_iff] at h
+          obtain ⟨s1, hs1, rfl⟩ := h
+          have := execOp_gone_unreg s s1 _ _ hs1
+          first | exact this.2 hu | exact this.1
+      · simp at h
+    case cn arm =>
+      simp only [step] at h
+      split at h
+      · split at h <;> (simp only [Option.ite_none_right_eq_some, Option.some.injEq] at h; obtain ⟨_, rfl⟩ := h; first | exact hu | rfl)
+      · split at h
+        · simp at h; subst h; first | exact hu | rfl
+        · simp only [Option.map_eq_some_iff] at h
+          obtain ⟨s1, hs1, rfl⟩ := h
+          have := execOp_gone_unreg s s1 _ _ hs1
+          first | exact this.2 hu | exact this.1
+      · simp at h
+    case rlCH arm =>
+      simp only [step] at h
+      split at h
+      · split at h
+        · obtain ⟨s1, hs1, rfl⟩ := Option.map_eq_some_iff.mp h
+          have := chArm_gone_unreg s s1 _ _ hs1
+          first | (show s1.unreg = true; rw [this.2]; exact hu) | exact this.1
+        · simp at h
+      · simp at h
+    case tcCH arm =>
+      simp only [step] at h
+      split at h
+      · obtain ⟨s1, hs1, rfl⟩ := Option.map_eq_some_iff.mp h
+        have := chArm_gone_unreg s s1 _ _ hs1
+        first | (show s1.unreg = true; rw [this.2]; exact hu) | exact this.1
+      · simp at h
+    case call i arm =>
+      simp only [step, callerStep] at h
+      split at h
+      · simp at h
+      · rename_i c hci
+        cases c <;> simp only at h
+        case idle => simp at h
+        case fin => simp at h
+        case cl =>
+          split at h
+          · simp at h; subst h; first | exact hu | rfl
+          · simp only [Option.map_eq_some_iff] at h
+            obtain ⟨s1, hs1, rfl⟩ := h
+            have := execOp_gone_unreg s s1 _ _ hs1
+            first | exact this.2 hu | exact this.1
+        case ab =>
+          split at h
+          · simp at h; subst h; first | exact hu | rfl
+          · simp only [Option.map_eq_some_iff] at h
+            obtain ⟨s1, hs1, rfl⟩ := h
+            have := execOp_gone_unreg s s1 _ _ hs1
+            first | exact this.2 hu | exact this.1
+        all_goals ((repeat' split at h) <;> (try simp at h) <;> (try (obtain ⟨_, rfl⟩ := h)) <;> (try subst h) <;>
+          (first | exact hu | rfl | (simp [setCaller, applyOp, E, Choreo.expected]; try exact hu)))
+    all_goals ((simp only [step] at h; (repeat' split at h) <;> (try simp at h) <;> (try (obtain ⟨_, rfl⟩ := h)) <;> (try subst h) <;>
+      (first | exact hu | rfl | (simp [applyOps, applyOp, E, Choreo.expected]; try exact hu))))
 
 /-! ### Close on a closed association -/
 
